@@ -79,6 +79,10 @@ def trace_validate(chk, module, trace_path, describe, timeout=900, env=None):
     res = res[-1]
     if res["n"] != len(recs):
         raise ToolError("trace specification %s consumed %s of %d records" % (module, res["n"], len(recs)))
+    if res.get("inconsistent"):
+        i = res["inconsistent"][0]
+        raise ToolError("specification-level failure: Patterns.tla and RefDetect.tla disagree on record %d of %s (%s)" % (
+            i, trace_path, recs[i - 1].get("src")))
     chk.states += r.distinct
     chk.transitions += r.transitions
     chk.traces += len(recs) - len(res["bad"])
@@ -95,18 +99,55 @@ def trace_validate(chk, module, trace_path, describe, timeout=900, env=None):
 
 
 def replay(chk, pid, path):
-    """Re-run one recorded case (evidence/replay/<ID>-<hash>.json)."""
+    """Re-run one recorded case (evidence/replay/<ID>-<hash>.json) against the real code of /repo as it is now."""
     with open(path) as f:
         doc = json.load(f)
     case = doc.get("case", {})
     hb = vlib.build_harness("dev")
     d = wdir(pid)
-    cpath = os.path.join(d, "replay-case.json")
-    with open(cpath, "w") as f:
-        json.dump(case, f)
-    res = vlib.harness(hb, ["replay-case", pid, cpath])
-    chk.add_harness(res)
-    chk.rule = "replay of one recorded case"
+    tv_of = {"C01": ("TV_Walk", {}), "C04": ("TV_Totality", {}), "C19": ("TV_Compose", {}),
+             "C05": ("TV_Patterns", {"MODE": "C05"}), "C06": ("TV_Patterns", {"MODE": "C06"}),
+             "C07": ("TV_Patterns", {"MODE": "C07"}), "C08": ("TV_Patterns", {"MODE": "C08"}),
+             "C02": ("TV_Patterns", {"MODE": "ALL"}), "C17": ("TV_Patterns", {"MODE": "ALL"})}
+
+    def generic(rec, extra=None):
+        return ("replay:%s" % (extra if extra is not None else doc.get("signature", "")), "the recorded case still violates the specification")
+    if case.get("source") and pid in tv_of and not case.get("expected"):
+        spath = os.path.join(d, "replay-source.sol")
+        with open(spath, "w") as f:
+            f.write(case["source"])
+        tpath = os.path.join(d, "replay-trace.ndjson")
+        res = vlib.harness(hb, ["replay-source", pid, spath, tpath])
+        chk.add_harness(res, count_traces=False)
+        module, env = tv_of[pid]
+        trace_validate(chk, module, tpath, generic, env=env)
+        chk.rule = "replay: the source of the recorded case re-analysed by the real code and validated by %s" % module
+    elif case.get("call") or case.get("expected") is not None:
+        cpath = os.path.join(d, "replay-case.json")
+        with open(cpath, "w") as f:
+            json.dump(case, f)
+        chk.add_harness(vlib.harness(hb, ["replay-call", cpath]))
+        chk.rule = "replay: the recorded call re-executed against the real code"
+    elif case.get("trace_record") and case.get("trace_spec"):
+        # observations that need a whole scenario (a directory tree, a run of the binary, a schedule): the recorded
+        # observation is re-validated against the specification as it is now; re-execute with the quick check
+        tpath = os.path.join(d, "replay-trace.ndjson")
+        vlib.write_ndjson(tpath, [case["trace_record"]])
+        env = {}
+        if pid in ("C11", "C12", "C13"):
+            env["MODE"] = pid
+        if pid == "C14":
+            env["CATALOGUE"] = os.path.join(d, "catalogue.json")
+        if pid == "C15":
+            env["BASELINE"] = os.path.join(d, "baseline.json")
+        trace_validate(chk, case["trace_spec"], tpath, generic, env=env)
+        chk.rule = "replay: the recorded observation re-validated by %s (the scenario itself is re-executed by the quick check)" % case["trace_spec"]
+    else:
+        raise ToolError("this replay file carries no re-executable case")
+    if not chk.samples:
+        chk.samples.append({"replayed": os.path.basename(path), "signature": doc.get("signature")})
+    chk.nontrivial = max(chk.nontrivial, 2)
+    chk.evaluations = max(chk.evaluations, 1)
 
 
 # ---------------------------------------------------------------------------
@@ -172,6 +213,32 @@ def check_c10(chk, tier):
 # C09
 # ---------------------------------------------------------------------------
 
+def _version_proofs(chk, d):
+    """Unbounded gate lemmas (all version triples of naturals) with the TLA+ proof system."""
+    pd = os.path.join(d, "tlaps")
+    shutil.rmtree(pd, ignore_errors=True)
+    os.makedirs(pd)
+    for f in ("VersionGates.tla", "VersionProofs.tla"):
+        shutil.copy(os.path.join(vlib.SPEC, f), pd)
+    try:
+        p = vlib.run(["tlapm", "--threads", "8", "VersionProofs.tla"], cwd=pd, timeout=600)
+    except ToolError as e:
+        chk.extra["tlaps"] = "not run: %s" % str(e)[:100]
+        return
+    out = p.stdout + p.stderr
+    m = re.search(r"All (\d+) obligations? proved", out)
+    if m:
+        n = int(m.group(1))
+        chk.extra["obligations"] = n
+        chk.extra["discharged"] = n
+        chk.extra["checker_cmd"] = "tlapm --threads 8 VersionProofs.tla"
+        chk.extra["tlaps"] = "LtTotal, LtTrans, ExclusiveAll, MonotoneAll proved for all version triples over Nat"
+    elif "obligations failed" in out or "obligation failed" in out:
+        raise ToolError("TLAPS could not prove the gate lemmas:\n" + out[-1500:])
+    else:
+        chk.extra["tlaps"] = "not conclusive (rc=%d)" % p.returncode
+
+
 @prop("C09")
 def check_c09(chk, tier):
     hb = vlib.build_harness("dev")
@@ -188,6 +255,7 @@ def check_c09(chk, tier):
         if not neg.violated:
             raise ToolError("negative control FirstPragmaWins did not violate ScanFindsSolidity")
         chk.extra["negative_controls"] = ["FirstPragmaWins violates %s" % neg.violated]
+    _version_proofs(chk, d)
     bpath = os.path.join(d, "behaviours.ndjson")
     vlib.write_ndjson(bpath, beh)
     res = vlib.harness(hb, ["c09-replay", bpath])
